@@ -153,7 +153,7 @@ func TestVerifC13H(t *testing.T) {
 	}()
 	depth := 5
 	if vres.Thorough() {
-		depth = 7
+		depth = 8
 	}
 	if vres.ReplayPath() != "" {
 		var rp vh.HReplay
